@@ -64,7 +64,7 @@ pub enum Chunk {
     Target { platform: u8, korea: bool },
     PatchInfo { status: u8, version: u8, size: u64 },
     Index { add: bool, synonym: bool, hash: u64, off: u32, num: u32 },
-    AddData { t: DatRef, off: u16, blocks: u8, delete: u8, seed: u64 },
+    AddData { t: DatRef, off: u16, blocks: u8, delete: u16, seed: u64 },
     DeleteData { t: DatRef, off: u16, count: u16 },
     ExpandData { t: DatRef, off: u16, count: u16 },
     Header { t: DatRef, index: bool, kind: u8, seed: u64 },
@@ -99,6 +99,10 @@ fn file_blocks() -> BoxedStrategy<Vec<(u16, Mode, u8)>> {
     vec((len, mode(), 0u8..5), 0..=5).boxed()
 }
 
+fn big_count() -> BoxedStrategy<u16> {
+    prop::sample::select(vec![255u16, 256, 257, 300, 511, 512, 513, 767, 768, 1023, 1024]).boxed()
+}
+
 fn chunk_strategy() -> BoxedStrategy<Chunk> {
     prop_oneof![
         1 => (any::<bool>(), any::<u32>()).prop_map(|(v3, seed)| Chunk::Fhdr { v3, seed }),
@@ -108,9 +112,10 @@ fn chunk_strategy() -> BoxedStrategy<Chunk> {
         1 => (0u8..5, any::<bool>()).prop_map(|(platform, korea)| Chunk::Target { platform, korea }),
         1 => (any::<u8>(), any::<u8>(), any::<u64>()).prop_map(|(status, version, size)| Chunk::PatchInfo { status, version, size }),
         1 => (any::<bool>(), any::<bool>(), any::<u64>(), any::<u32>(), any::<u32>()).prop_map(|(add, synonym, hash, off, num)| Chunk::Index { add, synonym, hash, off, num }),
-        6 => (datref(), 0u16..64, 0u8..=8, 0u8..=8, any::<u64>()).prop_map(|(t, off, blocks, delete, seed)| Chunk::AddData { t, off, blocks, delete, seed }),
-        3 => (datref(), 0u16..64, 1u16..=8).prop_map(|(t, off, count)| Chunk::DeleteData { t, off, count }),
-        3 => (datref(), 0u16..64, 1u16..=8).prop_map(|(t, off, count)| Chunk::ExpandData { t, off, count }),
+        // one count in nine is large: 255..1 024 blocks, i.e. wipes of 32 KiB and more (several buffers of any likely size)
+        6 => (datref(), 0u16..64, 0u8..=8, prop_oneof![8 => 0u16..=8, 1 => big_count()], any::<u64>()).prop_map(|(t, off, blocks, delete, seed)| Chunk::AddData { t, off, blocks, delete, seed }),
+        3 => (datref(), 0u16..64, prop_oneof![8 => 1u16..=8, 1 => big_count()]).prop_map(|(t, off, count)| Chunk::DeleteData { t, off, count }),
+        3 => (datref(), 0u16..64, prop_oneof![8 => 1u16..=8, 1 => big_count()]).prop_map(|(t, off, count)| Chunk::ExpandData { t, off, count }),
         3 => (datref(), any::<bool>(), 0u8..3, any::<u64>()).prop_map(|(t, index, kind, seed)| Chunk::Header { t, index, kind, seed }),
         6 => (pathref(), prop_oneof![2 => Just(0u16), 1 => 0u16..8], file_blocks(), any::<u64>()).prop_map(|(p, offset_128, blocks, seed)| Chunk::AddFile { p, offset_128, blocks, seed }),
         2 => pathref().prop_map(|p| Chunk::DeleteFile { p }),
@@ -121,7 +126,7 @@ fn chunk_strategy() -> BoxedStrategy<Chunk> {
 }
 
 fn strategy(_: &Ctx) -> BoxedStrategy<Case> {
-    (vec((pathref(), 0u16..3000, any::<u64>()), 0..6), vec((datref(), 0u8..5, 0u16..6000, any::<u64>()), 0..3), vec((0u8..5, any::<bool>(), vec(chunk_strategy(), 0..=12)), 1..=3))
+    (vec((pathref(), 0u16..3000, any::<u64>()), 0..6), vec((datref(), 0u8..5, prop_oneof![6 => 0u16..6000, 1 => 40_000u16..=65_535], any::<u64>()), 0..3), vec((0u8..5, any::<bool>(), vec(chunk_strategy(), 0..=12)), 1..=3))
         .prop_map(|(initial, initial_dats, mut patches)| {
             // a quarter of the whole-file AddFile commands come back later (end of the same or of the last patch) with the
             // front part of their own content: the file is there already, starts with the new content and is longer
